@@ -906,6 +906,87 @@ func c08LongValue(c *Ctx, pn string) {
 	}
 }
 
+// c08Announced: a list or map header that announces far more elements than the input holds, with few, 1023 .. 1025 and
+// thousands of real elements behind it (decoders reserve room for the first elements and grow from there): the memory
+// allocated must stay within a constant factor of the bytes that are there.  Runs alone (Extra), so the meter is quiet.
+func c08Announced(c *Ctx) {
+	uvar := func(n uint64) []byte {
+		var b []byte
+		for n >= 0x80 {
+			b = append(b, byte(n)|0x80)
+			n >>= 7
+		}
+		return append(b, byte(n))
+	}
+	be32 := func(n uint32) []byte { return []byte{byte(n >> 24), byte(n >> 16), byte(n >> 8), byte(n)} }
+	type elem struct {
+		name   string
+		one    any // a list of one element: the package's own encoder supplies the type code and the element bytes
+		target func() any
+	}
+	elems := []elem{
+		{"i8", []int8{7}, func() any { return new([]int8) }},
+		{"i64", []int64{1}, func() any { return new([]int64) }},
+		{"bool", []bool{true}, func() any { return new([]bool) }},
+		{"string", []string{"x"}, func() any { return new([]string) }},
+	}
+	for _, pn := range []string{"binary", "compact"} {
+		p := protoOf(pn)
+		for _, e := range elems {
+			for _, real := range []int{0, 3, 1023, 1024, 1025, 1500, 5000} {
+				for _, announced := range []uint32{uint32(real) + 1, uint32(2*real + 5), 1 << 20, 48 << 20, 1<<31 - 1} {
+					enc1, err := thrift.Marshal(p, e.one)
+					if err != nil || len(enc1) < 2 {
+						c.SpecError("C08", "cannot encode a list of one element", e.name)
+						return
+					}
+					var in, one []byte
+					if pn == "binary" {
+						in, one = append([]byte{enc1[0]}, be32(announced)...), enc1[5:]
+					} else {
+						in, one = append([]byte{0xf0 | enc1[0]&0x0f}, uvar(uint64(announced))...), enc1[1:]
+					}
+					for i := 0; i < real; i++ {
+						in = append(in, one...)
+					}
+					k := thriftCase{Proto: pn, What: fmt.Sprintf("announced count %d, %d elements of %s present", announced, real, e.name)}
+					// top level, and as field 1 of a struct
+					encS, _ := thrift.Marshal(p, struct {
+						L []int8 `thrift:"1"`
+					}{[]int8{1}})
+					hdr := 3 // binary: type, id
+					if pn == "compact" {
+						hdr = 1
+					}
+					nested := append(append([]byte(nil), encS[:hdr]...), in...)
+					type holder struct {
+						name string
+						in   []byte
+						dst  any
+					}
+					sv := reflect.New(reflect.StructOf([]reflect.StructField{{Name: "L", Type: reflect.TypeOf(e.target()).Elem(), Tag: `thrift:"1"`}}))
+					for _, h := range []holder{{"thrift.Unmarshal(list)", in, e.target()}, {"thrift.Unmarshal(struct with a list)", nested, sv.Interface()}} {
+						var derr error
+						var pan string
+						c.Eval(1)
+						alloc := allocDuring(func() { pan = protect(func() { derr = thrift.Unmarshal(p, h.in, h.dst) }) })
+						bound := uint64(64*len(h.in) + 128<<10)
+						switch {
+						case pan != "":
+							c.Diverge("C08", h.name+"["+pn+"]", "an error, no panic", pan, "", k)
+						case derr == nil:
+							c.Diverge("C08", h.name+"["+pn+"]", "unexpected-EOF class error (fewer elements than announced)", "nil error", "", k)
+						case alloc > bound:
+							c.Diverge("C08", h.name+"["+pn+"]", fmt.Sprintf("allocation within a constant factor of the %d bytes present (<= %d)", len(h.in), bound),
+								fmt.Sprintf("%d bytes allocated, err=%v", alloc, derr), "", k)
+						}
+					}
+				}
+			}
+		}
+	}
+}
+
 var sub1AltLayout = []tField{{ID: 1, Ty: "I16"}, {ID: 2, Ty: "BOOL"}}
 
 // altType: t with every occurrence of the nested struct type replaced by a struct whose field 1 is an i16
@@ -1041,6 +1122,10 @@ func c08Vector(c *Ctx, raw stdjson.RawMessage) {
 func c08Replay(c *Ctx, raw stdjson.RawMessage) {
 	var k thriftCase
 	if stdjson.Unmarshal(raw, &k) == nil {
+		if strings.HasPrefix(k.What, "announced count") {
+			c08Announced(c)
+			return
+		}
 		if strings.HasPrefix(k.What, "long value") {
 			c08LongOnce.Delete(k.Proto)
 			c08LongValue(c, k.Proto)
@@ -1053,5 +1138,5 @@ func c08Replay(c *Ctx, raw stdjson.RawMessage) {
 func init() {
 	register("C13", &Driver{Vector: c13Vector, Replay: c13Replay})
 	register("C04", &Driver{Vector: c04Vector, Replay: c04Replay})
-	register("C08", &Driver{Vector: c08Vector, Replay: c08Replay})
+	register("C08", &Driver{Vector: c08Vector, Replay: c08Replay, Extra: c08Announced})
 }
